@@ -98,6 +98,8 @@ def culture_strings(r):
         out += ['%s-%s' % (lang, reg) for reg in ('xx', 'ZZ', 'qq', '001', 'latn-xx')]
     out += ['en-gb', 'en-au', 'en-IN', 'es-ar', 'es-419', 'fr-ca', 'FR-CH', 'pt-pt', 'de-at', 'de-CH', 'it-ch', 'nl-be', 'zh-tw', 'zh-HK', 'zh-hans-cn', 'ja-jp', 'ja-xx', 'ko-kp', 'tr-cy']
     out += ['xx-yy', 'ru-ru', 'sv-se', 'ar-sa', 'hi-in', 'pl-pl', 'english', 'fra', 'deu', 'zho', 'eng-us', 'esp-es', 'klingon', 'tlh', 'qaa-qm']
+    out += [x.upper() for x in out[-34:]] + [x.title() for x in out[-34:]]
+    out += ['JA-JP', 'Ja-Jp', 'ja-JP', 'JA-jp', 'ZH-TW', 'zh-Hans-CN', 'Zh-tw']
     out += ['', None, None, ' en-us', 'en-us ', 'en_us', 'en', 'es', 'zh', 'de', 'fr']
     # not well-formed language tags (one-letter primary subtag): probed explicitly, see the known finding
     out += ['i-klingon', 'z', 'x-private', 'i', 'n-nl', 'z-cn', 'j', 'e', 'f-fr']
@@ -128,6 +130,8 @@ def expected(rname, mt, code, fallback, target, registered):
 
 
 def run(job, ctx):
+    if job.get('kind') == 'casesweep':
+        return run_casesweep(job, ctx)
     install_monitor()
     from recognizers_text import ModelFactory
     from recognizers_date_time import DateTimeOptions
@@ -138,6 +142,7 @@ def run(job, ctx):
     long_lived = {}
     seen = {}            # (rname, mt, resolved culture, options) -> id(model)
     by_id = {}
+    by_lower = {}        # (recogniser, getter, type, culture string lower-cased, fallback, target) -> (answer, culture string as first written)
     steps = job['steps']
     for step in range(steps):
         rname = r.choice(sorted(R))
@@ -195,6 +200,14 @@ def run(job, ctx):
         prov = getattr(m, '_rt_prov', None) if m is not None else None
         popts = getattr(m, '_rt_opts', None) if m is not None else None
         obs = {'outcome': out[0], 'provenance': prov, 'built_with_options': popts}
+        # letter case never matters: two requests that differ only in the case of the culture string get the same answer
+        if code and out[0] != 'EXC':
+            lk = (rname, case['getter'], mt, code.lower(), fb, rec.target_culture)
+            ans = (out[0], prov[2] if prov else None)
+            ctx.event('letter_case_pairs_compared', int(lk in by_lower and by_lower[lk][1] != code))
+            if lk in by_lower and by_lower[lk][0] != ans:
+                ctx.fail('routing-depends-on-letter-case', where, key, case, {'as': by_lower[lk][1], 'answer': list(by_lower[lk][0])}, obs)
+            by_lower.setdefault(lk, (ans, code))
         ctx.observe(key=key, nontrivial=m is not None, cell='%s:%s' % (rname, mt), sample={'request': case, 'observed': obs, 'expected': exp})
         # the ja-* route of the sequence recogniser (known finding) is classified from the observed provenance
         if out[0] == 'EXC':
@@ -255,6 +268,48 @@ def run(job, ctx):
                      {'key': [k.model_type, k.culture, int(k.options)]}, 'provenance == key', {'provenance': prov, 'options': getattr(v, '_rt_opts', None)})
 
 
+def variants(code):
+    alt = ''.join(ch.upper() if i % 2 == 0 else ch for i, ch in enumerate(code))
+    return [code, code.upper(), code.title(), alt, code[:2].upper() + code[2:], code[:3] + code[3:].upper()]
+
+
+def run_casesweep(job, ctx):
+    """every getter of every recogniser x every culture family x fallback on/off, asked in six letter cases: one answer"""
+    install_monitor()
+    R = rec_classes()
+    fams = sorted(set(supported()) | {'ja-jp', 'ja-xx', 'zh-tw', 'zh-hk', 'en-gb', 'es-ar', 'fr-ca', 'pt-pt', 'de-at', 'nl-be', 'it-ch', 'ko-kr', 'xx-yy'})
+    fams = [f for f in fams if '*' not in f]
+    for rname in sorted(R):
+        if job['recognizer'] != rname:
+            continue
+        for getter, mt in GETTERS[rname]:
+            for generic in (False, True):
+                for fb in (True, False):
+                    for fam in fams:
+                        rec = R[rname](None, 0, False)
+                        answers = []
+                        for code in variants(fam):
+                            try:
+                                m = rec.get_model(mt, code, fb) if generic else getattr(rec, getter)(code, fb)
+                                ans = ('model', (getattr(m, '_rt_prov', None) or (None, None, None))[2])
+                            except ValueError:
+                                ans = ('ValueError', None)
+                            except Exception as e:
+                                ans = ('EXC', repr(e))
+                            answers.append((code, ans))
+                            ctx.event('cache_requests')
+                        key = 'case|%s|%s|%s|%s' % (rname, 'get_model' if generic else getter, fam, fb)
+                        ctx.observe(key=key, nontrivial=any(a[1][0] == 'model' for a in answers), cell='%s:%s:case' % (rname, mt),
+                                    sample={'request': key, 'answers': answers[:3]})
+                        ctx.event('letter_case_pairs_compared', len(answers) - 1)
+                        if len({a[1] for a in answers}) > 1:
+                            ctx.fail('routing-depends-on-letter-case', {'model': mt, 'recognizer': rname}, key,
+                                     {'recognizer': rname, 'getter': 'get_model' if generic else getter, 'model_type': mt, 'culture': fam, 'fallback': fb},
+                                     'one answer for every letter case', [[c, list(a)] for c, a in answers])
+
+
 def plan(tier, seed):
     n, steps = (6, 400) if tier == 'quick' else (16, 4000)
-    return [{'name': 'history-%d' % i, 'shard': i, 'steps': steps} for i in range(n)]
+    jobs = [{'name': 'history-%d' % i, 'kind': 'history', 'shard': i, 'steps': steps} for i in range(n)]
+    jobs += [{'name': 'case-' + rn, 'kind': 'casesweep', 'recognizer': rn} for rn in sorted(GETTERS)]
+    return jobs
